@@ -27,6 +27,10 @@ type Scenario struct {
 	// Final is the oracle evaluated when the scheduling loop has ended and
 	// before clean-up.
 	Final func(e *Env)
+	// Post, when set, runs after the bubble has ended (outside it): the place
+	// for oracles that need real time or their own goroutines (porcupine). It
+	// may call e.FailPost.
+	Post func(e *Env)
 	// Valid rejects plans that are not meaningful workloads (used while
 	// shrinking: e.g. an infinite generator that nobody ever stops).
 	Valid func(p *Plan) bool
@@ -85,6 +89,13 @@ func Execute(t *testing.T, sc *Scenario, plan *Plan, ch *Chooser, maxSteps int, 
 			res.Infra = "panic outside the simulation: " + msg
 		}
 	}()
+	var env *Env
+	defer func() {
+		if env != nil && res.Infra == "" && res.Viol == nil && sc.Post != nil {
+			sc.Post(env)
+			res.Viol = env.Viol
+		}
+	}()
 	synctest.Test(t, func(t *testing.T) {
 		s := simrt.New()
 		simrt.S = s
@@ -99,6 +110,7 @@ func Execute(t *testing.T, sc *Scenario, plan *Plan, ch *Chooser, maxSteps int, 
 		ctx, cancel := context.WithCancel(context.Background())
 		e := &Env{S: s, Plan: plan, Ctx: ctx, cancel: cancel, Abort: make(chan struct{}), Probes: map[string]int{}, Faults: map[string]int{}}
 		s.Watch(ctx.Done(), &e.Cancelled)
+		env = e
 
 		func() {
 			defer func() {
